@@ -39,6 +39,9 @@ type c05UScn struct {
 	ModeClass *c05h.ModeClass `json:"modeClass"` // if set: the mode file holds this class of bytes (ModeBytes.tla)
 	Junk      bool            `json:"junk"`      // leftovers: unreadable count file, report with a short name, directory named like a report
 	Debug     bool            `json:"debug"`     // a debug directory exists (the uploader logs into it)
+	Odd       bool            `json:"odd"`       // odd but well-formed state: count file without counters, weeks that are too old / end before they begin, unusable TimeEnd, stale lock, report already there, debug is a file
+	Empty     bool            `json:"empty"`     // no count files, no reports, no upload directory
+	Reply     int             `json:"reply"`     // status the upload server answers (0 = 200)
 	Steps     []string        `json:"steps"`     // "run" ...
 }
 
@@ -63,7 +66,7 @@ type c05CountFile struct {
 	content []byte
 }
 
-func c05CountFiles(t *testing.T, junk bool) []c05CountFile {
+func c05CountFiles(t *testing.T, junk, odd bool) []c05CountFile {
 	mk := func(prog, begin, end string, v uint64) []byte {
 		meta := rt.V1Meta(begin+"T00:00:00Z", end+"T00:00:00Z", prog, "v1.0.0", "go1.21.0", "linux", "amd64")
 		data, err := rt.WriteV1(meta, []rt.V1Entry{{Name: "c", Value: v}, {Name: "d", Value: v + 1}})
@@ -82,6 +85,32 @@ func c05CountFiles(t *testing.T, junk bool) []c05CountFile {
 		fs = append(fs, c05CountFile{"junk@v1.0.0-go1.21.0-linux-amd64-2024-01-01.v1.count", "", []byte("# telemetry/counter file v1\n junk junk junk")})
 		fs = append(fs, c05CountFile{"empty@v1.0.0-go1.21.0-linux-amd64-2024-01-01.v1.count", "", []byte{}})
 	}
+	if odd {
+		raw := func(meta string, es []rt.V1Entry) []byte {
+			data, err := rt.WriteV1(meta, es)
+			if err != nil {
+				t.Fatal(err)
+			}
+			return data
+		}
+		m := func(begin, end, prog string) string {
+			return rt.V1Meta(begin+"T00:00:00Z", end+"T00:00:00Z", prog, "v1.0.0", "go1.21.0", "linux", "amd64")
+		}
+		one := []rt.V1Entry{{Name: "c", Value: 1}}
+		fs = append(fs,
+			// a valid file without any counter: no report can be made of its week, it must stay
+			c05CountFile{"zero@v1.0.0-go1.21.0-linux-amd64-2024-01-03.v1.count", "2024-01-10", raw(m("2024-01-03", "2024-01-10", "zero"), nil)},
+			// a week that ended more than 21 days ago: reported locally only
+			c05CountFile{"old@v1.0.0-go1.21.0-linux-amd64-2023-11-20.v1.count", "2023-11-27", raw(m("2023-11-20", "2023-11-27", "old"), one)},
+			// the span ends before it begins
+			c05CountFile{"back@v1.0.0-go1.21.0-linux-amd64-2024-01-10.v1.count", "2024-01-03", raw(m("2024-01-10", "2024-01-03", "back"), one)},
+			// unusable end of span: the file is not collected
+			c05CountFile{"badend@v1.0.0-go1.21.0-linux-amd64-2024-01-01.v1.count", "", raw("TimeBegin: 2024-01-01T00:00:00Z\nTimeEnd: notadate\nProgram: badend\nVersion: v1.0.0\nGoVersion: go1.21.0\nGOOS: linux\nGOARCH: amd64\n\n", one)},
+			c05CountFile{"noend@v1.0.0-go1.21.0-linux-amd64-2024-01-01.v1.count", "", raw("TimeBegin: 2024-01-01T00:00:00Z\nProgram: noend\nVersion: v1.0.0\nGoVersion: go1.21.0\nGOOS: linux\nGOARCH: amd64\n\n", one)},
+			// only a stack counter, empty program name
+			c05CountFile{"stack@v1.0.0-go1.21.0-linux-amd64-2024-01-02.v1.count", "2024-01-08", raw(m("2024-01-02", "2024-01-08", ""), []rt.V1Entry{{Name: "st\nexample.com/p.f:+1,+0x1\n\".g:+2,+0x2", Value: 2}})},
+		)
+	}
 	return fs
 }
 
@@ -99,9 +128,12 @@ func c05UploadCase(t *testing.T, scn *c05UScn, plan *c05h.Plan, env []string, bu
 		os.WriteFile(filepath.Join(dir, "mode"), []byte(scn.Mode), 0666)
 	}
 	if scn.ModeClass != nil {
-		os.WriteFile(filepath.Join(dir, "mode"), scn.ModeClass.Bytes(), 0666)
+		scn.ModeClass.Install(dir)
 	}
-	files := c05CountFiles(t, scn.Junk)
+	files := c05CountFiles(t, scn.Junk, scn.Odd)
+	if scn.Empty {
+		files = nil
+	}
 	for _, f := range files {
 		os.WriteFile(filepath.Join(local, f.name), f.content, 0666)
 	}
@@ -115,12 +147,28 @@ func c05UploadCase(t *testing.T, scn *c05UScn, plan *c05h.Plan, env []string, bu
 		os.WriteFile(filepath.Join(local, "weekends"), []byte("9\n"), 0666)
 	}
 	posts := 0
+	posted := map[string]bool{} // weeks whose report reached the server (a refused report is dropped by design)
 	srv := httptest.NewServer(http.HandlerFunc(func(rw http.ResponseWriter, r *http.Request) {
 		io.Copy(io.Discard, r.Body)
 		posts++
-		rw.WriteHeader(200)
+		posted[filepath.Base(r.URL.Path)] = true
+		if scn.Reply != 0 {
+			rw.WriteHeader(scn.Reply)
+		} else {
+			rw.WriteHeader(200)
+		}
 	}))
 	defer srv.Close()
+	if scn.Odd {
+		os.WriteFile(filepath.Join(upload, "2024-01-01.json.lock"), nil, 0666)                             // a lock nobody gives back
+		os.WriteFile(filepath.Join(local, "local.2024-01-15.json"), []byte(`{"Week":"2024-01-15"}`), 0666) // somebody already reported that week
+		os.WriteFile(filepath.Join(local, "2024-02-05.json"), []byte(`{"Week":"2024-02-05"}`), 0666)       // a report from the future
+		os.WriteFile(filepath.Join(dir, "debug"), []byte("not a directory"), 0666)
+	}
+	if scn.Empty {
+		os.RemoveAll(upload)
+		os.Remove(filepath.Join(local, "2024-01-01.json"))
+	}
 
 	h := c05h.NewHooks(dir, plan)
 	h.Install()
@@ -163,7 +211,7 @@ func c05UploadCase(t *testing.T, scn *c05UScn, plan *c05h.Plan, env []string, bu
 					touched = append(touched, f.name+":removed")
 					continue
 				}
-				if !exists(filepath.Join(local, "local."+f.week+".json")) && !exists(filepath.Join(local, f.week+".json")) && !exists(filepath.Join(upload, f.week+".json")) {
+				if !exists(filepath.Join(local, "local."+f.week+".json")) && !exists(filepath.Join(local, f.week+".json")) && !exists(filepath.Join(upload, f.week+".json")) && !posted[f.week] {
 					orphans = append(orphans, f.name)
 				}
 				continue
